@@ -167,6 +167,16 @@ static void direct_drive(Fac& fac, vf::Draw& d, vf::Case& c, vf::FacOracle& fo, 
     }
     Eigen::Map<const Vec> v0map(v0.data(), n);
     Index ops = 0;
+    if (vf::options().geti("dump", 0))
+    {
+        // triage aid: the operator and the start vector in full precision
+        std::fprintf(stderr, "DUMP n=%ld\n", (long) n);
+        for (Index j = 0; j < n; j++)
+            for (Index i = 0; i < n; i++)
+                std::fprintf(stderr, "OP %ld %ld %.21Lg %.21Lg\n", (long) i, (long) j, fo.OP(i, j).real(), fo.OP(i, j).imag());
+        for (Index i = 0; i < n; i++)
+            std::fprintf(stderr, "V0 %ld %.21Lg %.21Lg\n", (long) i, (ld) std::real(v0[i]), (ld) std::imag(v0[i]));
+    }
     fac.init(v0map, ops);
     VF_CHECK(fac.subspace_dim() == 1, "dimension", "subspace_dim() = " << fac.subspace_dim() << " after init");
     int nops = (int) d.dim("nops", 1, 30);
